@@ -54,6 +54,46 @@ def route_results(doc, routes=("dict", "yaml", "json", "builder")):
     return out
 
 
+def inplace_assign(old, new):
+    """make the container `old` equal to `new` by editing it IN PLACE, keeping the identity of every nested dict /
+    list that exists on both sides (what a user does who edits Builder.data after a first resolve())"""
+    if isinstance(old, dict) and isinstance(new, dict):
+        for k in [k for k in old if k not in new]:
+            del old[k]
+        for k, v in new.items():
+            if k in old and type(old[k]) is type(v) and isinstance(v, (dict, list)):
+                inplace_assign(old[k], v)
+            else:
+                old[k] = v
+        # same key order as `new` (a dict keeps the position of a key that is overwritten)
+        for k in list(new):
+            old[k] = old.pop(k)
+    elif isinstance(old, list) and isinstance(new, list):
+        for i, v in enumerate(new):
+            if i < len(old) and type(old[i]) is type(v) and isinstance(v, (dict, list)):
+                inplace_assign(old[i], v)
+            elif i < len(old):
+                old[i] = v
+            else:
+                old.append(v)
+        del old[len(new):]
+
+
+def builder_edit_route(base, doc):
+    """Builder.fromdict(base).resolve(), then Builder.data edited in place into `doc`, then resolve() again"""
+    try:
+        b = demes.Builder.fromdict(copy.deepcopy(base))
+        try:
+            b.resolve()
+        except Exception:  # noqa: BLE001
+            pass
+        inplace_assign(b.data, copy.deepcopy(doc))
+        g = b.resolve()
+        return ("ok", canon(g.asdict()), g)
+    except Exception as e:  # noqa: BLE001
+        return ("err", type(e).__name__, None)
+
+
 def stringify_doc(d):
     """infinite start times as the string 'Infinity', as a user would write them in JSON"""
     for dm in d.get("demes", []):
